@@ -746,3 +746,85 @@ Example close_idempotent_example :
                                    (phase_ops 0 ex_ops ++ map (store_sop 1) ex_ops))) = (st1, sok) /\
               sess_close ex_id st1 = (st1, sok) /\ sdir st1 1 <> [] /\ sdir st1 0 = sdir st1 1.
 Proof. vm_compute. eexists. split; [reflexivity|]. split; [reflexivity|]. split; [discriminate | reflexivity]. Qed.
+
+(* ---------- the info file replaced between two scales ---------- *)
+Section InfoReplaced.
+Variable enc ienc : bytes -> bytes.
+
+Lemma isess_run_ops : forall c ops st,
+  isess_run enc ienc c st (map IOp ops) = sess_run c enc ienc st ops.
+Proof.
+  intros c ops. induction ops as [|o r IH]; intro st; [reflexivity|]. cbn [map isess_run].
+  destruct o as [k x y z b|]; cbn [sess_run].
+  - destruct (sess_store c enc st k b x y z) as [st1 o1]. rewrite IH.
+    destruct (sess_run c enc ienc st1 r) as [st2 os]. reflexivity.
+  - destruct (sess_close ienc st) as [st1 o1]. rewrite IH.
+    destruct (sess_run c enc ienc st1 r) as [st2 os]. reflexivity.
+Qed.
+
+Lemma isess_run_app_ops : forall c a b st,
+  isess_run enc ienc c st (map IOp a ++ b) =
+  let '(st1, o1) := sess_run c enc ienc st a in
+  let '(st2, o2) := isess_run enc ienc c st1 b in (st2, o1 ++ o2).
+Proof.
+  intros c a. induction a as [|o r IH]; intros b st; cbn [map app].
+  - cbn [sess_run]. destruct (isess_run enc ienc c st b). reflexivity.
+  - cbn [isess_run]. destruct o as [k x y z buf|]; cbn [sess_run].
+    + destruct (sess_store c enc st k buf x y z) as [st1 o1]. rewrite IH.
+      destruct (sess_run c enc ienc st1 r) as [st2 os]. destruct (isess_run enc ienc c st2 b). reflexivity.
+    + destruct (sess_close ienc st) as [st1 o1]. rewrite IH.
+      destruct (sess_run c enc ienc st1 r) as [st2 os]. destruct (isess_run enc ienc c st2 b). reflexivity.
+Qed.
+
+(* Scale k1 is written and closed under the info cfg; the info file is then
+   replaced by cfg' (which may give any other scale other sharding parameters,
+   sizes and chunk sizes); scale k2, never written before, is written and
+   closed.  Nothing raises; the files of k2 are those of the single-scale model
+   under the NEW parameters sp2 = cfg' k2 (so a specification reader that takes
+   its parameters from the info file on disk finds every chunk:
+   C04_spec_reads_canonical with sp2); the files of k1 remain those written
+   under the old info. *)
+Theorem info_replaced_between_scales : forall cfg cfg' k1 k2 v1 sp1 v2 sp2 ops1 cms1 ops2 cms2,
+  k1 <> k2 ->
+  cbits sp1 < 2 ^ 64 -> sp_m sp1 < 60 -> cfg k1 = Some (v1, sp1) ->
+  Forall2 (resolves v1) ops1 cms1 -> ops1 <> [] -> ops_valid sp1 cms1 -> sizes_ok sp1 enc ienc cms1 ->
+  cbits sp2 < 2 ^ 64 -> sp_m sp2 < 60 -> cfg' k2 = Some (v2, sp2) ->
+  Forall2 (resolves v2) ops2 cms2 -> ops2 <> [] -> ops_valid sp2 cms2 -> sizes_ok sp2 enc ienc cms2 ->
+  exists st2,
+    isess_run enc ienc cfg sess_init
+      (map IOp (phase_ops k1 ops1) ++ IInfo cfg' :: map IOp (phase_ops k2 ops2)) =
+      (st2, all_sok (phase_ops k1 ops1 ++ phase_ops k2 ops2)) /\
+    (forall name, blookup name (sdir st2 k2) = blookup name (session_files sp2 enc ienc cms2)) /\
+    (forall name, blookup name (sdir st2 k1) = blookup name (session_files sp1 enc ienc cms1)).
+Proof.
+  intros cfg cfg' k1 k2 v1 sp1 v2 sp2 ops1 cms1 ops2 cms2 Hk HB1 Hm1 Hc1 HF1 Hne1 Hv1 Hsz1 HB2 Hm2 Hc2 HF2 Hne2 Hv2 Hsz2.
+  destruct (phase_correct cfg enc ienc k1 v1 sp1 ops1 cms1 sess_init HB1 Hm1 Hc1 HF1 Hne1 Hv1 Hsz1)
+    as (st1 & Er1 & Hcl1 & (ws1 & Esc1) & Hf1 & Hfs1); [intros k' ws' [] | reflexivity | reflexivity|].
+  assert (Hs2 : alookup k2 (se_scales st1) = None).
+  { rewrite Esc1. cbn. destruct (N.eqb_spec k1 k2); [congruence | reflexivity]. }
+  assert (Hf2none : alookup k2 (se_fs st1) = None) by (rewrite (Hfs1 k2 ltac:(congruence)); reflexivity).
+  destruct (phase_correct cfg' enc ienc k2 v2 sp2 ops2 cms2 st1 HB2 Hm2 Hc2 HF2 Hne2 Hv2 Hsz2 Hcl1 Hs2 Hf2none)
+    as (st2 & Er2 & _ & _ & Hf2 & Hfs2).
+  exists st2. split; [|split; [exact Hf2|]].
+  - rewrite isess_run_app_ops. unfold phase_ops in *. rewrite Er1. cbn [isess_run].
+    rewrite isess_run_ops, Er2. unfold all_sok. f_equal. symmetry. apply map_app.
+  - intro name. assert (Hd : sdir st2 k1 = sdir st1 k1) by (unfold sdir; rewrite (Hfs2 k1 Hk); reflexivity).
+    rewrite Hd. apply Hf1.
+Qed.
+
+End InfoReplaced.
+
+Definition ex_sp' : sparams := {| sp_m := 1; sp_s := 0; sp_p := 2 |}.
+Definition ex_cfg' (k : N) : option (vspec * sparams) :=
+  if k <? 2 then match mk_vspec [8; 8; 8]%Z [24; 32; 16]%Z with Ok v => Some (v, ex_sp') | _ => None end else None.
+
+(* instance: scale 1 is written after the info was replaced; its files differ
+   from what the old parameters would have produced and equal the single-scale
+   run under the new ones *)
+Example info_replaced_example :
+  let run := isess_run ex_id ex_id ex_cfg sess_init
+               (map IOp (phase_ops 0 ex_ops) ++ IInfo ex_cfg' :: map IOp (phase_ops 1 ex_ops)) in
+  snd run = all_sok (phase_ops 0 ex_ops ++ phase_ops 1 ex_ops) /\
+  sdir (fst run) 1 = sdir (fst (sess_run ex_cfg' ex_id ex_id sess_init (phase_ops 1 ex_ops))) 1 /\
+  sdir (fst run) 1 <> sdir (fst run) 0.
+Proof. vm_compute. split; [reflexivity|]. split; [reflexivity | discriminate]. Qed.
